@@ -560,7 +560,7 @@ func (ex *Exec) stepMakeSlice(st *State, v *ssa.MakeSlice) {
 	case "byte":
 		st.heap["BMem"] = ex.define(st, "BMem", Store(st.heap["BMem"], r, App(SBytes, "f_zeros", c)))
 	case "string":
-		st.heap["SMem"] = ex.define(st, "SMem", Store(st.heap["SMem"], r, T(SAIS, "((as const (Array Int Str)) lit_empty)")))
+		st.heap["SMem"] = ex.define(st, "SMem", Store(st.heap["SMem"], r, T(SAIS, "zeroStrArr")))
 	default:
 		panic(unsupported("make of slice with unsupported element type"))
 	}
